@@ -1021,6 +1021,14 @@ func execC17(raw json.RawMessage, wantLog bool) (out Outcome) {
 					}
 				}
 				s.runFor(3 * time.Second) // the members record the joiner as a replica
+				// one more node joins; the replica sets are full now, so it hosts nothing and has
+				// to ask a replica of every partition - the cut-off joiner among them
+				na := s.addNode(joinList(len(s.nodes)+1, 1, len(s.nodes)))
+				if err := s.startNode(na); err == nil {
+					s.runUntil(func() bool { return na.joined || !na.alive }, 30*time.Second)
+					s.runUntil(func() bool { return r.datasetOn(na, info.id) != nil || !na.alive }, 20*time.Second)
+					s.runFor(time.Second)
+				}
 				rounds = 6
 			}
 		}
